@@ -267,6 +267,42 @@ def j9(rep, rows, by):
     rep.floor("(method, operand count) shapes evaluated", n, 8)
 
 
+JAVA_CHAR_SPECIALS = {92: "backslash", 39: "single quote", 10: "line feed", 13: "carriage return"}
+
+
+def j11(rep):
+    """A character constant is written between single quotes by jcLiteralChar.  Java's grammar (JLS 3.10.4) allows any input
+    character there except ' and \\, and an input character is never CR or LF: those four must be written as escapes."""
+    f = common.extract("java/javacode.c", trees=["jcLiteralChar"])
+    fn = f.func("jcLiteralChar")
+    handled = {}
+    for x in walk(fn["body"]):
+        if x["k"] != "IfStmt":
+            continue
+        c = strip(x["c"][0])
+        if c is None or c["k"] != "BinaryOperator" or c["op"] != "==":
+            continue
+        l, v = strip(c["c"][0]), const_value(c["c"][1])
+        if l is None or l["k"] != "ArraySubscriptExpr" or const_value(l["c"][1]) != 0 or v is None:
+            continue
+        texts = [string_value(a) for cl in calls(x["c"][1], "strCopy") for a in cl["c"][1:2]]
+        handled[v] = texts[0] if len(texts) == 1 else None
+    if len(handled) < 4:
+        raise AnalysisBroken("jcLiteralChar: the chain of `s[0] == c` tests was not recognised (%s)" % sorted(handled))
+    where = "javacode.c:%d (jcLiteralChar)" % fn["l"]
+    for v, nm in sorted(JAVA_CHAR_SPECIALS.items()):
+        key = "char-literal-escaped:%s" % nm.replace(" ", "-")
+        t = handled.get(v)
+        if v not in handled:
+            rep.violation("J11", key, where, "a %s character constant (code %d) is written between the quotes as itself: the generated "
+                          "class does not compile (javac: unclosed / illegal character literal) while the interpreter runs the "
+                          "program" % (nm, v))
+        elif t is None or not t.startswith("\\") or len(t) < 2:
+            rep.violation("J11", key, where, "the text written for a %s character constant (%r) is not an escape" % (nm, t))
+        else:
+            rep.ok("J11", key, sample={"text": t})
+
+
 def run(tier, only=None):
     rep = common.Report("C12", tier, EXPLANATION)
     f_foam = common.extract("foam.c")
@@ -585,4 +621,7 @@ def run(tier, only=None):
         if not rep.violations:
             raise
         rep.note("J9 not evaluated: %s" % e)
+    j11(rep)
+    from . import variadic
+    variadic.report(rep, "J10", [u for u in common.compiler_units() if u.startswith("java/")], floor=70, what="in the Java generator")
     return rep
